@@ -299,16 +299,27 @@ func CheckRoundTrip(c RTCase) (vs hx.Vs, nontrivial bool, classes []string) {
 	// pass-through law: input that already is a protected value is not wrapped again
 	// "already a protected value" = ONE envelope (container or bare AcraStruct/AcraBlock) spanning the whole input;
 	// an envelope followed by other bytes is ordinary data (its tail would otherwise be stored in clear)
-	already := false
-	if _, _, wf := containerAt(w, x); wf && le64(x[3:11]) == uint64(len(x)) &&
-		((x[11] == crypto.AcraStructEnvelopeID && handlerOf(fix.KindStruct).MatchDataSignature(x[12:])) ||
-			(x[11] == crypto.AcraBlockEnvelopeID && le64(x[16:24])+4 == uint64(len(x)-12) && handlerOf(fix.KindBlock).MatchDataSignature(x[12:]))) {
-		already = true // a whole container whose content has the envelope's signature
-	} else if handlerOf(fix.KindStruct).MatchDataSignature(x) {
-		already = true // AcraStruct validation is exact-length
-	} else if len(x) >= 18 && bytes.HasPrefix(x, []byte(`""""`)) && le64(x[4:12])+4 == uint64(len(x)) && handlerOf(fix.KindBlock).MatchDataSignature(x) {
-		already = true
+	// wholeEnvelope: the kind of the ONE envelope that spans all of b ("" if b is not exactly one envelope)
+	wholeEnvelope := func(b []byte) string {
+		if _, _, wf := containerAt(w, b); wf && le64(b[3:11]) == uint64(len(b)) {
+			if b[11] == crypto.AcraStructEnvelopeID && handlerOf(fix.KindStruct).MatchDataSignature(b[12:]) {
+				return fix.KindStruct // a whole container whose content has the envelope's signature
+			}
+			if b[11] == crypto.AcraBlockEnvelopeID && le64(b[16:24])+4 == uint64(len(b)-12) && handlerOf(fix.KindBlock).MatchDataSignature(b[12:]) {
+				return fix.KindBlock
+			}
+			return ""
+		}
+		if handlerOf(fix.KindStruct).MatchDataSignature(b) {
+			return fix.KindStruct // AcraStruct validation is exact-length
+		}
+		if len(b) >= 18 && bytes.HasPrefix(b, []byte(`""""`)) && le64(b[4:12])+4 == uint64(len(b)) && handlerOf(fix.KindBlock).MatchDataSignature(b) {
+			return fix.KindBlock
+		}
+		return ""
 	}
+	inKind := wholeEnvelope(x)
+	already := inKind != ""
 	if already {
 		classes = append(classes, "plain:is-envelope")
 		if perr != nil {
@@ -317,10 +328,33 @@ func CheckRoundTrip(c RTCase) (vs hx.Vs, nontrivial bool, classes []string) {
 				classes = append(classes, "plain:is-foreign-envelope-refused")
 				return vs, true, classes
 			}
+			// so has a re-encrypting column: an AcraStruct made for somebody else cannot be turned into an AcraBlock
+			// of the column's owner (the statement is then forwarded as it came - still an envelope)
+			ownPiece := false
+			for _, pc := range c.Plain {
+				ownPiece = ownPiece || (strings.HasPrefix(pc.Env, "alice/") && pc.Damage == 0) // an intact envelope of the owner must be re-encrypted
+			}
+			if p.Name == "writeChain/config-default" && inKind == fix.KindStruct && !ownPiece {
+				classes = append(classes, "plain:is-foreign-envelope-refused")
+				return vs, true, classes
+			}
 			vs.Add("protect-error:"+p.Name, "%s failed on an already protected value: %v", p.Name, perr)
 			return
 		}
 		okPass := bytes.Equal(v, x) || (len(v) == len(x)+33 && bytes.Equal(v[33:], x))
+		// a column with reencrypting_to_acrablocks (the loader's default) turns an application-side AcraStruct of
+		// its owner into an AcraBlock: one whole AcraBlock (behind the search hash of a searchable column) is the
+		// designed outcome, not a second wrapping
+		if !okPass && inKind == fix.KindStruct && (p.Name == "writeChain/config-default" || p.Name == "writeChain/config-searchable") {
+			body := v
+			if p.Form == fix.FormSearchWrapped && len(v) > 33 {
+				body = v[33:]
+			}
+			okPass = wholeEnvelope(body) == fix.KindBlock
+			if okPass {
+				classes = append(classes, "plain:acrastruct-reencrypted-to-acrablock")
+			}
+		}
 		if !okPass && !strings.HasPrefix(p.Name, "lib/") && p.Name != "ReEncrypt/struct->block" {
 			vs.Add("double-wrap:"+p.Name, "%s wrapped a value that already is a protected value (in %d bytes, out %d bytes)", p.Name, len(x), len(v))
 		}
